@@ -1,6 +1,7 @@
 // simrt core: token scheduler, clock, kernel model, faults, trace/replay.
 // Compiled WITHOUT any instrumentation (no tsan pass, no asan, no coverage).
 #include "simrt.h"
+#include "race.h"
 
 #include <dlfcn.h>
 #include <errno.h>
@@ -88,6 +89,7 @@ struct SimThread {
   bool detached;
   bool joined;
   bool reaped;
+  uintptr_t stack_lo, stack_hi; // race detector: a thread that reuses a dead thread's stack/TLS is ordered after it
   void* (*fn)(void*);
   void* arg;
   void* ret;
@@ -469,9 +471,17 @@ extern "C" void sim_result_line(char* buf, size_t n, const char* status, const c
       lastp = k + 1;
   for (int k = 0; k < lastp; ++k)
     o += (size_t)snprintf(buf + o, n - o, "%s%llu", k ? "," : "", (unsigned long long)g.probes[k]);
-  o += (size_t)snprintf(buf + o, n - o, "]}\n");
+  o += (size_t)snprintf(buf + o, n - o, "]");
+  if (rd_on()) {
+    uint64_t a = 0, b = 0, c = 0, d = 0;
+    rd_stats(&a, &b, &c, &d);
+    o += (size_t)snprintf(buf + o, n - o, ",\"race\":[%llu,%llu,%llu,%llu]", (unsigned long long)a, (unsigned long long)b,
+                          (unsigned long long)c, (unsigned long long)d);
+  }
+  o += (size_t)snprintf(buf + o, n - o, "}\n");
 }
 
+static int g_memonly; // 0 property oracles, 1 memory-only (C11), 2 data-race-only (C10)
 static void write_replay(const char* cls, const char* msg) {
   if (!g.opts.record_path)
     return;
@@ -484,6 +494,7 @@ static void write_replay(const char* cls, const char* msg) {
   fprintf(f, "seed %llu\n", (unsigned long long)g.opts.seed);
   fprintf(f, "opts %u %llu %llu %d\n", g.opts.fault_mask, (unsigned long long)g.opts.explore_steps,
           (unsigned long long)g.opts.tail_steps, g.opts.force_policy);
+  fprintf(f, "mode %d\n", g_memonly);
   fprintf(f, "class %s\n", cls);
   fprintf(f, "msg %s\n", msg);
   fprintf(f, "fingerprint %016llx\n", (unsigned long long)g.fp);
@@ -569,7 +580,8 @@ static bool load_replay(const char* path) {
 }
 
 extern "C" int __lsan_do_recoverable_leak_check() __attribute__((weak));
-static int g_memonly;
+static char g_soft_cls[256];
+static char g_soft_msg[900];
 extern "C" void sim_set_memonly(int on) {
   g_memonly = on;
 }
@@ -592,6 +604,21 @@ extern "C" void sim_fail(const char* cls, const char* fmt, ...) {
     fflush(g.tracef);
   }
   char buf[8192];
+  if (g_memonly == 2) {
+    // data-race check (C10): only race reports count; anything else that ends the run is incidental,
+    // and a race seen earlier in the run is still reported
+    bool race = !strncmp(cls, "race:", 5);
+    if (!race && !strncmp(g_soft_cls, "race:", 5)) {
+      cls = g_soft_cls;
+      snprintf(msg, sizeof msg, "%s", g_soft_msg);
+      race = true;
+      write_replay(cls, msg);
+    }
+    sim_result_line(buf, sizeof buf, race ? "violation" : "incidental", cls, msg);
+    ssize_t w4 = write(1, buf, strlen(buf));
+    (void)w4;
+    _exit(0);
+  }
   if (g_memonly) {
     // whole-library memory-safety check (C11): an oracle violation of some other property ends the
     // run but is only "incidental" here; still look for leaked memory before leaving
@@ -615,8 +642,6 @@ extern "C" void sim_fail(const char* cls, const char* fmt, ...) {
 
 // A "soft" violation does not end the run (so it cannot mask other checks): the first one is
 // remembered and reported when the run finishes cleanly.
-static char g_soft_cls[256];
-static char g_soft_msg[900];
 extern "C" void sim_soft_fail(const char* cls, const char* fmt, ...) {
   if (g_soft_cls[0])
     return;
@@ -1028,6 +1053,7 @@ extern "C" void __sanitizer_cov_trace_pc_guard_init(uint32_t* start, uint32_t* s
 // lambdas, which dladdr cannot see).
 struct SymEnt {
   uintptr_t lo, hi;
+  const char* name; // into the (kept) mapping of the executable's string table
   uint8_t cls;
 };
 static SymEnt* g_syms;
@@ -1090,12 +1116,29 @@ static void load_symtab() {
       SymEnt e;
       e.lo = bias + syms[k].st_value;
       e.hi = e.lo + syms[k].st_size;
-      e.cls = classify_name(str + syms[k].st_name);
+      e.name = str + syms[k].st_name;
+      e.cls = classify_name(e.name);
       g_syms[g_nsyms++] = e;
     }
     std::sort(g_syms, g_syms + g_nsyms, [](const SymEnt& a, const SymEnt& b) { return a.lo < b.lo; });
   }
-  munmap(base, (size_t)sb.st_size);
+  // (the mapping stays: symbol names point into it)
+}
+// mangled name of the function containing pc, or null (used by the race detector's reports)
+extern "C" const char* sim_symbol_of(void* pc) {
+  load_symtab();
+  uintptr_t a = (uintptr_t)pc;
+  size_t lo = 0, hi = g_nsyms;
+  while (lo < hi) {
+    size_t mid = (lo + hi) / 2;
+    if (g_syms[mid].lo <= a)
+      lo = mid + 1;
+    else
+      hi = mid;
+  }
+  if (lo > 0 && a < g_syms[lo - 1].hi)
+    return g_syms[lo - 1].name;
+  return nullptr;
 }
 static uint8_t classify_guard(void* pc) {
   load_symtab();
@@ -1120,6 +1163,9 @@ struct PcCache {
 };
 static PcCache g_pc_cache[1 << 16];
 extern "C" void sim_plain_point(void* pc, const void* addr, int is_write) {
+  sim_plain_point_n(pc, addr, is_write, 1);
+}
+extern "C" void sim_plain_point_n(void* pc, const void* addr, int is_write, int size) {
   SimThread* t = tl_self;
   if (!t || !g.active || t->st != T_RUNNABLE)
     return;
@@ -1132,6 +1178,9 @@ extern "C" void sim_plain_point(void* pc, const void* addr, int is_write) {
   if (e.cls != 1)
     return;
   sim_point(is_write ? SP_PLAIN_W : SP_PLAIN_R, addr);
+  // (after the point: the access itself happens when this thread continues)
+  if (rd_on())
+    rd_access(t->id, pc, addr, (size_t)size, is_write);
 }
 
 extern "C" void __sanitizer_cov_trace_pc_guard(uint32_t* guard) {
@@ -1363,6 +1412,7 @@ static int model_mutex_lock(pthread_mutex_t* mu, bool tryonly) {
     MutexEnt* m = mutex_find(mu);
     if (!m) {
       g.mutexes->push_back(MutexEnt{mu, t->id, 1, is_recursive(mu)});
+      rd_acquire(t->id, mu);
       return 0;
     }
     if (m->owner == t->id) {
@@ -1386,6 +1436,7 @@ static int model_mutex_unlock(pthread_mutex_t* mu) {
     return EPERM;
   if (--m->count > 0)
     return 0;
+  rd_release(t->id, mu);
   mutex_remove(m);
   // wake all waiters: they re-contend (barging allowed); order among them is a scheduling choice
   wake_n(SW_MUTEX, mu, 1 << 30);
@@ -1530,6 +1581,7 @@ static int model_sem_wait(sem_t* s, bool tryonly, uint64_t deadline) {
     }
     if (e->count > 0) {
       e->count--;
+      rd_acquire(self()->id, s);
       return 0;
     }
     if (tryonly) {
@@ -1576,6 +1628,7 @@ extern "C" int sem_post(sem_t* s) {
     e = &g.sems->back();
   }
   e->count++;
+  rd_release(self()->id, s);
   wake_n(SW_SEM, s, 1);
   return 0;
 }
@@ -1588,8 +1641,10 @@ extern "C" int pthread_once(pthread_once_t* once, void (*init)(void)) {
     return real_pthread_once()(once, init);
   sim_point(SP_ONCE, once);
   for (;;) {
-    if (*(volatile int*)once == 2)
+    if (*(volatile int*)once == 2) {
+      rd_acquire(self()->id, once);
       return 0;
+    }
     OnceEnt* found = nullptr;
     for (auto& o : *g.onces)
       if (o.addr == once)
@@ -1597,6 +1652,7 @@ extern "C" int pthread_once(pthread_once_t* once, void (*init)(void)) {
     if (!found) {
       g.onces->push_back(OnceEnt{once, self()->id});
       init();
+      rd_release(self()->id, once);
       *(volatile int*)once = 2;
       for (size_t i = 0; i < g.onces->size(); ++i)
         if ((*g.onces)[i].addr == once) {
@@ -1649,6 +1705,28 @@ static void* trampoline(void* p) {
   tl_self = t;
   park_wait(t);
   pthread_setspecific(g_exit_key, t);
+  if (rd_on()) {
+    pthread_attr_t at;
+    if (pthread_getattr_np(pthread_self(), &at) == 0) {
+      void* lo = nullptr;
+      size_t sz = 0;
+      if (pthread_attr_getstack(&at, &lo, &sz) == 0) {
+        // The stack (and the static TLS block inside it) may be recycled from a thread that has
+        // exited.  glibc hands it over only after that thread is completely gone, so this thread
+        // is ordered after it (moodycamel even keys its per-thread producers by a TLS address and
+        // lets the new thread continue the dead one's sub-queue); the old access history is dropped.
+        t->stack_lo = (uintptr_t)lo;
+        t->stack_hi = (uintptr_t)lo + sz;
+        for (int i = 0; i < g.nth; ++i) {
+          SimThread* o = &g.th[i];
+          if (o != t && o->st == T_EXITED && o->stack_lo < t->stack_hi && t->stack_lo < o->stack_hi)
+            rd_thread_join(t->id, o->id);
+        }
+        rd_clear(lo, sz);
+      }
+      pthread_attr_destroy(&at);
+    }
+  }
   t->ret = t->fn(t->arg);
   return t->ret;
 }
@@ -1673,6 +1751,7 @@ extern "C" int pthread_create(pthread_t* th, const pthread_attr_t* attr, void* (
     return rc;
   nt->has_real = true;
   g.nth++;
+  rd_thread_create(self()->id, nt->id);
   int live = 0;
   for (int i = 0; i < g.nth; ++i)
     if (g.th[i].st != T_EXITED)
@@ -1739,6 +1818,7 @@ extern "C" int pthread_join(pthread_t th, void** ret) {
       g.reap = nullptr;
   }
   t->joined = true;
+  rd_thread_join(self()->id, t->id);
   if (ret)
     *ret = t->ret;
   return 0;
@@ -2093,10 +2173,12 @@ extern "C" void sim_event_wait(const void* key) {
   // No simulation point before blocking: the caller's "check the condition, then wait" must be
   // atomic with respect to the waker (there is no mutex to close that window with).
   block_on(SW_EVENT, key, 0);
+  rd_acquire(self()->id, key);
 }
 extern "C" void sim_event_wake_all(const void* key) {
   if (!simulated())
     return;
+  rd_release(self()->id, key);
   for (int i = 0; i < g.nth; ++i)
     if (g.th[i].st == T_BLOCKED && g.th[i].wk == SW_EVENT && g.th[i].waddr == key)
       make_runnable(&g.th[i], WR_WOKEN);
@@ -2204,4 +2286,79 @@ __attribute__((constructor)) static void simrt_ctor() {
   const char* sp = getenv("SIMRT_SPIN");
   if (sp)
     g_spin = atoi(sp);
+}
+
+// ------------------------------------------------------------------------------------------
+// data-race detector glue (race.cpp): which thread is running, and how a race is reported
+// ------------------------------------------------------------------------------------------
+static void race_report(const char* what, const char* a, int ta, const char* b, int tb, const void* addr) {
+  const char* x = a;
+  const char* y = b;
+  if (strcmp(x, y) > 0) {
+    x = b;
+    y = a;
+  }
+  char cls[256];
+  snprintf(cls, sizeof cls, "race:%s|%s", x, y);
+  sim_soft_fail(cls, "%s data race on %p: %s (thread %d) then %s (thread %d) with no happens-before between them", what,
+                addr, a, ta, b, tb);
+}
+extern "C" void sim_race_enable(int on) {
+  rd_enable(on, race_report);
+}
+static inline bool race_live() {
+  return rd_on() && g.active && tl_self;
+}
+extern "C" void sim_race_atomic(const void* addr, int op, int mo) {
+  if (race_live())
+    rd_atomic(tl_self->id, addr, op, mo);
+}
+extern "C" void sim_race_fence(int mo) {
+  if (race_live())
+    rd_fence(tl_self->id, mo);
+}
+extern "C" void sim_race_access(const void* addr, size_t size, int is_write, const char* label) {
+  if (race_live())
+    rd_access_labelled(tl_self->id, label, addr, size, is_write);
+}
+extern "C" void sim_race_release(const void* obj) {
+  if (race_live())
+    rd_release(tl_self->id, obj);
+}
+extern "C" void sim_race_acquire(const void* obj) {
+  if (race_live())
+    rd_acquire(tl_self->id, obj);
+}
+extern "C" void sim_race_ignore(int reads_delta, int writes_delta) {
+  if (race_live())
+    rd_ignore(tl_self->id, reads_delta, writes_delta);
+}
+extern "C" void sim_race_new_memory(const void* addr, size_t size) {
+  if (race_live())
+    rd_clear(addr, size);
+}
+extern "C" void sim_race_stats(uint64_t* plain, uint64_t* atomic, uint64_t* sync, uint64_t* declared) {
+  rd_stats(plain, atomic, sync, declared);
+}
+
+// function-local statics: the guard's release happens inside libstdc++ (not instrumented), so the
+// edge "initialisation completed -> later users" is declared here
+extern "C" int __cxa_guard_acquire(long long* g_) {
+  typedef int (*fn_t)(long long*);
+  static fn_t real; // (no initialiser: a guarded static here would recurse into this function)
+  if (!real)
+    real = (fn_t)dlsym(RTLD_NEXT, "__cxa_guard_acquire");
+  int r = real(g_);
+  if (race_live())
+    rd_acquire(tl_self->id, g_);
+  return r;
+}
+extern "C" void __cxa_guard_release(long long* g_) {
+  typedef void (*fn_t)(long long*);
+  static fn_t real;
+  if (!real)
+    real = (fn_t)dlsym(RTLD_NEXT, "__cxa_guard_release");
+  if (race_live())
+    rd_release(tl_self->id, g_);
+  real(g_);
 }
